@@ -5,6 +5,8 @@ cd "$(dirname "$0")"
 export CARGO_NET_OFFLINE=true
 [ -f harness/Cargo.lock ] || cp /repo/Cargo.lock harness/Cargo.lock
 (cd harness && cargo build --release --offline)
+# second profile with release semantics (no debug assertions, wrapping arithmetic): used by C03/C05 for entries that panic under the checking profile
+(cd harness && cargo build --profile relsem --offline)
 if [ -d harness-serde ]; then
   [ -f harness-serde/Cargo.lock ] || cp /repo/Cargo.lock harness-serde/Cargo.lock
   (cd harness-serde && cargo build --release --offline)
